@@ -58,12 +58,20 @@ func e2eCase(r *rng.R, dir string) []string {
 		again := seedState
 		code = e2eProgram(&again, trap, base)
 		cfg.MemSpec = "Linear64K"
+		count("e2e.top")
+	}
+	// a third of the cases: the configuration names 64tass as the assembler, so -label takes a 64tass symbol list
+	// (drawn from a generator of its own: the other choices of a case stay what they were)
+	tass := e2eTass != nil && e2eTass.Chance(34)
+	if tass {
+		cfg.AsmType = emuconfig.Asm64Tass
+	}
+	if top || tass {
 		cfgFile := filepath.Join(dir, "e2e_config.json")
 		if err := cfg.Save(cfgFile); err != nil {
 			panic(err)
 		}
 		cfgArgs = []string{"-c", cfgFile}
-		count("e2e.top")
 	}
 	bin := writeFile(dir, "e2e.bin", prg(uint16(base), code...))
 	marker := filepath.Join(dir, "ran.marker")
@@ -126,6 +134,7 @@ func e2eCase(r *rng.R, dir string) []string {
 	// ---- labels
 	labelArgs := []string{}
 	labReq := "-"
+	labFile := "-" // the label file itself, part of the request: `<format>:<hex>`
 	if r.Chance(50) {
 		var lf strings.Builder
 		ls := []string{}
@@ -153,7 +162,16 @@ func e2eCase(r *rng.R, dir string) []string {
 			}
 			labelArgs = []string{"-label", writeFile(dir, "e2e.labels", []byte(text))}
 			labReq = strings.Join(ls, ";")
+			labFile = "acme:" + hex.EncodeToString([]byte(text))
 		}
+	}
+	if tass {
+		text := ""
+		text, labReq = tassLabelFile(e2eTass, int(start), n, e2eTassCases == 0)
+		e2eTassCases++
+		labelArgs = []string{"-label", writeFile(dir, "e2e.labels", []byte(text))}
+		labFile = "64tass:" + hex.EncodeToString([]byte(text))
+		count("e2e.labels.64tass")
 	}
 
 	// ---- the real command, with a dump that overlaps the program in half of the cases
@@ -199,7 +217,7 @@ func e2eCase(r *rng.R, dir string) []string {
 	}
 	os.Remove(marker)
 	count("e2e.profile." + dumpKind)
-	lines = append(lines, fmt.Sprintf("report %s %d %04x | %s | %s | %s => %s %s", strategy, prcnt, start, strings.Join(raws, ","), hex.EncodeToString(vals), labReq, cutRes, out))
+	lines = append(lines, fmt.Sprintf("report %s %d %04x | %s | %s | %s | %s => %s %s", strategy, prcnt, start, strings.Join(raws, ","), hex.EncodeToString(vals), labReq, labFile, cutRes, out))
 
 	// ---- a dump specification that must be rejected before anything runs
 	if trap && !abortStream {
@@ -227,6 +245,98 @@ func e2eCase(r *rng.R, dir string) []string {
 	return lines
 }
 
+// e2eTass: the generator of the 64tass label files (nil: ACME files only); e2eTassCases: how many were written
+var e2eTass *rng.R
+var e2eTassCases = 0
+
+// tassLabelFile writes a 64tass symbol list for a program of n bytes at start: well-formed definitions in every
+// permitted spelling — `$` + 1..4 hex digits of either case or 1..5 DECIMAL digits, white space or none in front of
+// the name and of the equal sign, an optional trailing comment which may itself contain `$`, `= $` or digits — one to
+// three labels for an address (file order counts), addresses ascending or descending in the file, plus symbols and
+// constants below the load address, which are defined in the file but are not part of the report.  The first file of a
+// stream has a hex line, a plain decimal line and a decimal line whose comment mentions a hex number.
+// Returns the text and the labels per program offset in the notation of the `report` request.
+func tassLabelFile(rt *rng.R, start int, n int, first bool) (string, string) {
+	comments := []string{"", "", " ; loop counter", "\t; was $0805 before the rewrite", " ; old = $10", " $", " ;$c000", " ; 100% sure", "\t;=", " ; 2052"}
+	render := func(name string, val int, form int, comment string) string {
+		pre := []string{"", "", " ", "\t", "  \t"}[rt.Intn(5)]
+		mid := []string{" ", " ", "\t", "", "  "}[rt.Intn(5)]
+		v := ""
+		switch form {
+		case 0:
+			v = fmt.Sprintf("$%04x", val)
+		case 1:
+			v = fmt.Sprintf("$%X", val)
+		case 2:
+			v = fmt.Sprintf("$%x", val)
+		case 3:
+			v = fmt.Sprintf("%d", val)
+		default:
+			v = fmt.Sprintf("%05d", val)
+		}
+		return pre + name + mid + "= " + v + comment + "\n"
+	}
+	type def struct {
+		idx   int
+		names []string
+		lines []string
+	}
+	defs := []def{}
+	forced := -1
+	if !first {
+		forced = rt.Intn(n)
+	}
+	for i := 0; i < n; i++ {
+		fixed := first && (i == 0 || i == 2 || i == 4)
+		if !(fixed || i == forced || rt.Chance(10)) {
+			continue
+		}
+		d := def{idx: i}
+		k := 1 + rt.Intn(3)
+		if rt.Chance(60) {
+			k = 1
+		}
+		for c := 0; c < k; c++ {
+			nm := []string{"l%d_%d", "L%d_%d", "_%d_%dx", "%d_%d", "loop%dPart%d"}[rt.Intn(5)]
+			nm = fmt.Sprintf(nm, i, c)
+			form := rt.Intn(5)
+			comment := comments[rt.Intn(len(comments))]
+			if fixed && c == 0 {
+				form = []int{0, 0, 3, 0, 3}[i]
+				comment = []string{"", "", "", "", " ; was $0805 before the rewrite"}[i]
+			}
+			d.names = append(d.names, nm)
+			d.lines = append(d.lines, render(nm, start+i, form, comment))
+		}
+		defs = append(defs, d)
+	}
+	var lf strings.Builder
+	if rt.Bool() {
+		// symbols and constants below the load address
+		lf.WriteString(render("zp_ptr", 0x10+rt.Intn(0xE0), 3+rt.Intn(2), []string{"", " ; $fb on the C64"}[rt.Intn(2)]))
+		lf.WriteString(render("COLS", 40, rt.Intn(5), comments[rt.Intn(len(comments))]))
+	}
+	ls := []string{}
+	for _, d := range defs {
+		ls = append(ls, fmt.Sprintf("%d:%s", d.idx, strings.Join(d.names, ",")))
+	}
+	if rt.Bool() {
+		for i, j := 0, len(defs)-1; i < j; i, j = i+1, j-1 {
+			defs[i], defs[j] = defs[j], defs[i]
+		}
+	}
+	for _, d := range defs {
+		for _, l := range d.lines {
+			lf.WriteString(l)
+		}
+	}
+	text := lf.String()
+	if rt.Bool() {
+		text = strings.TrimSuffix(text, "\n") // the last line of a label file need not end with a line feed
+	}
+	return text, strings.Join(ls, ";")
+}
+
 // abortStream: a call into the repository's code did not come back within the deadline; the case is reported as
 // "no result" and the stream stops after it
 var abortStream = false
@@ -249,6 +359,7 @@ func withDeadline(f func()) bool {
 
 func profileStream(seed uint64, n int) {
 	r := rng.New(seed + 1420)
+	e2eTass, e2eTassCases = rng.New(seed+142064), 0
 	dir := tmpDir()
 	defer os.RemoveAll(dir)
 	for i := 0; i < n; i++ {
